@@ -157,7 +157,14 @@ fn bref(field: &str, typ: &str, boxed: bool) -> Expr {
 }
 
 fn caller(src: &mut Src, target: &str) -> RuleDef {
-    let body = match src.pick(6) {
+    let body = match src.pick(8) {
+        // an earlier alternative that gets further into the input WITHOUT entering the left-recursive rule and then fails:
+        // the rule is entered with a furthest error that lies behind its own start
+        6 => Expr::Choice(vec![
+            Expr::Seq(vec![Expr::Star(Box::new(Expr::Seq(vec![Expr::Not(Box::new(Expr::lit("§"))), Expr::anon("char")]))), Expr::lit("§")]),
+            bref("e", target, false),
+        ]),
+        7 => Expr::Choice(vec![Expr::Seq(vec![Expr::anon("char"), Expr::Opt(Box::new(Expr::anon("char"))), Expr::lit("§")]), Expr::Seq(vec![bref("e", target, false), Expr::Eoi])]),
         0 => Expr::Seq(vec![bref("e", target, false), Expr::Eoi]),
         1 => Expr::Seq(vec![Expr::Opt(Box::new(bref("e", target, false))), Expr::lit("!")]),
         2 => Expr::Star(Box::new(Expr::Seq(vec![bref("e", target, false), Expr::lit(";")]))),
